@@ -117,7 +117,7 @@ def run_stage(ctx, prefixes, thorough=False, cap=None):
         step = len(models) / float(cap)
         off = ctx.seed % max(1, int(step))
         models = [models[min(len(models) - 1, int(k * step) + off)] for k in range(cap)]
-    parts = 8
+    parts = 16
     scen = os.path.join(ctx.scratch, "rr-scen.ndjson")
     files = []
     for part in range(parts):
@@ -130,7 +130,11 @@ def run_stage(ctx, prefixes, thorough=False, cap=None):
 
     def one(fn):
         out = fn + ".trace"
-        vlib.run_harness(binary, ["-in", fn, "-out", out], timeout=3000)
+        try:
+            vlib.run_harness(binary, ["-in", fn, "-out", out], timeout=3000)
+        except vlib.Infra as e:
+            vlib.log("harness part %s failed (%s); retrying once" % (os.path.basename(fn), str(e)[:160].replace("\n", " ")))
+            vlib.run_harness(binary, ["-in", fn, "-out", out, "-watchdog", "600"], timeout=6000)
         return out
     with concurrent.futures.ThreadPoolExecutor(max_workers=parts) as ex:
         traces = list(ex.map(one, files))
